@@ -286,9 +286,14 @@ def replay(prop, path, work):
     elif layer == "adapters" and isinstance(payload["behaviour"], dict) and "kind" in payload["behaviour"]:
         # a one-step case of the AdapterAlgo conformance run
         run_harness(["algo", beh, trace])
-        c = os.path.join(work, "TraceAlgo.cfg")
-        write_cfg(c, spec="TraceSpec", constants=dict(TailLimitDecreaseUsesOldLimit=True), postcondition="TraceAccepted")
-        val = validate("TraceAlgo", c, trace, work, nchunks=1)
+        if str(payload["behaviour"]["kind"]).startswith("sort"):
+            c = os.path.join(work, "TraceSortAlgo.cfg")
+            write_cfg(c, spec="TraceSpec", constants={}, postcondition="TraceAccepted")
+            val = validate("TraceSortAlgo", c, trace, work, nchunks=1)
+        else:
+            c = os.path.join(work, "TraceAlgo.cfg")
+            write_cfg(c, spec="TraceSpec", constants=dict(TailLimitDecreaseUsesOldLimit=True), postcondition="TraceAccepted")
+            val = validate("TraceAlgo", c, trace, work, nchunks=1)
     elif layer == "adapters":
         run_harness(["adapters-replay", beh, trace])
         val = ad_validate(trace, work)
@@ -619,8 +624,11 @@ def ad_sig(v):
     d = v["detail"]
     if d.get("op") == "Case":
         cause = "limit-decrease-from-beyond-length" if d.get("d2") else ("limit-change" if d.get("new", -1) >= 0 else (d.get("d") or {}).get("k"))
-        return dict(layer="adapters", clause=v["clause"], stage_kind=d.get("kind"), stage_mode="dyninit", stage_family=d.get("kind"),
-                    cause=cause, one_step=True)
+        if d.get("d4"):
+            cause = "truncate-forwarded"   # a source Truncate answered by a Truncate of the sorted view
+        fam = "sort" if str(d.get("kind", "")).startswith("sort") else d.get("kind")
+        return dict(layer="adapters", clause=v["clause"], stage_kind=d.get("kind"), stage_mode="static" if fam == "sort" else "dyninit",
+                    stage_family=fam, cause=cause, one_step=True)
     stage = d.get("stage", 0) or 0
     chain = d.get("chain") or (d.get("pipes") or [{}])[(d.get("pipe") or 1) - 1].get("chain", [])
     st = chain[stage - 1] if 1 <= stage <= len(chain) else {}
@@ -689,6 +697,44 @@ def algo_collect(prop, tier, seed, work, beh_path, offset):
                 domain="sources of length 0..%d, limits 0..%d, every applicable diff of the 11 kinds, every limit change" % (consts["MaxN"], consts["MaxP"]))
 
 
+def sortalgo_collect(prop, tier, seed, work, beh_path, offset):
+    """One-step cases of SortAlgo.tla (relational transcription of sort.rs): model-checked for the three key functions of the
+    harness (ASSUME of MCSortAlgo: every allowed result keeps the bookkeeping exact and rebuilds a sorted permutation, except the
+    Truncate arm, wrong exactly when ~TruncateOK = finding D4) and run on the real Sort / SortBy / SortByKey."""
+    quick = tier == "quick"
+    maxn = 3 if quick else 4
+    cases = os.path.join(work, "sort-cases.ndjson")
+    n = 0
+    with open(cases, "w") as o:
+        for mode in ("sort", "sort_by", "sort_by_key"):
+            cfg = os.path.join(work, "MCSortAlgo-%s.cfg" % mode)
+            write_cfg(cfg, init="Init", next_="Next", constants=dict(MaxN=maxn, KeyMode=mode))
+            uf = os.path.join(work, "sort-cases-%s.out" % mode)
+            r = tlc("MCSortAlgo", cfg, work, workers=1, timeout=3000, userfile=uf, tag="mcsort-" + mode)
+            if not tlc_ok(r, "MCSortAlgo"):
+                log(r["out"][-4000:])
+                raise ToolError("MCSortAlgo(%s): the transcription does not satisfy C11's rule (or D4 is not characterised exactly): model error" % mode)
+            for js in parse_user_lines(uf, "B"):
+                o.write(js + "\n")
+                n += 1
+            os.remove(uf)
+    trace = os.path.join(work, "sort-trace.ndjson")
+    run_harness(["algo", cases, trace])
+    c = os.path.join(work, "TraceSortAlgo.cfg")
+    write_cfg(c, spec="TraceSpec", constants={}, postcondition="TraceAccepted")
+    val = validate("TraceSortAlgo", c, trace, work, nchunks=8)
+    for v in val["violations"]:
+        v["run"] = offset + (v["run"] + 1) // 2
+    with open(beh_path, "a") as o, open(cases) as i:
+        for line in i:
+            o.write(line)
+    st = val["stats"] + [0] * 4
+    os.remove(trace)
+    return dict(violations=val["violations"], states=val["states"], n=n, drift=st[2], with_output=st[3],
+                domain="sort / sort_by (v mod 4 descending) / sort_by_key (v mod 3): every source of 0..%d distinct values of 1..4, every "
+                       "applicable diff of the 11 kinds with values that tie and do not tie" % maxn)
+
+
 def adapters_pipeline(prop, tier, seed, work, t0):
     quick = tier == "quick"
     # ---- 1. design level: the view functions / diff algebra are exercised exhaustively by MCVecOps (C18);
@@ -731,6 +777,12 @@ def adapters_pipeline(prop, tier, seed, work, t0):
         val["violations"] += algo["violations"]
         val["states"] = val.get("states", 0) + algo["states"]
         n += algo["n"]
+    salgo = None
+    if prop == "C11":
+        salgo = sortalgo_collect(prop, tier, seed, work, beh, n)
+        val["violations"] += salgo["violations"]
+        val["states"] = val.get("states", 0) + salgo["states"]
+        n += salgo["n"]
     st = val["stats"] + [0] * 14
     extra = dict(trace_events=st[0], calls_followed=st[2], generator_states=gstates, generator_transitions=gtrans,
                  exercised=dict(polls_with_output=st[3], polls_with_lag_reset=st[4], stream_ends_seen=st[6],
@@ -744,6 +796,14 @@ def adapters_pipeline(prop, tier, seed, work, t0):
                                       note="MCAlgo: every arm of head/tail/skip handle_diff and update_limit/update_count checked against the view "
                                            "rule on the transcription (AdapterAlgo.tla) for every consistent small state and input; the same cases "
                                            "run on the real adapters over a scripted input stream (TraceAlgo.tla)")
+    if salgo:
+        extra["algo_one_step"] = dict(cases=salgo["n"], exhaustive_domain=salgo["domain"], drift_cases=salgo["drift"],
+                                      cases_with_output=salgo["with_output"],
+                                      note="MCSortAlgo: every result the relational transcription of sort.rs (SortAlgo.tla: binary search may "
+                                           "return any equal position, sort_by need not be stable) allows keeps the index bookkeeping exact and "
+                                           "rebuilds a sorted permutation, from every consistent bookkeeping state; the Truncate arm is wrong "
+                                           "exactly when ~TruncateOK (finding D4). The same cases run on the real adapters (TraceSortAlgo.tla); "
+                                           "drift = emitted diffs outside the relation")
     mc2 = dict(distinct=mc["distinct"] + gstates, generated=mc["generated"] + gtrans)
     return finish(prop, tier, seed, t0, mc2, n, beh, val, AD_RULES[prop], ad_nontrivial(prop), extra,
                   ["taps between the stages are transparent (they forward every poll and item unchanged)",
